@@ -8,6 +8,7 @@ import os
 import subprocess
 import sys
 import threading
+import time
 from typing import Any, Iterator
 
 from ..core import env
@@ -33,7 +34,7 @@ RULE = (
 )
 BOUND = {
     "quick": "all histories of length <= 2 over 25 calls (plus repeats a,a,a); the all-pairs chain (1152 calls); fingerprint BFS depth 3 from each first call; all <=1-preemption schedules for 16 ordered pairs",
-    "thorough": "all histories of length <= 3 over 25 calls; the all-pairs chain; fingerprint BFS depth 5 from each first call; all <=1-preemption schedules for all ordered pairs; 2 preemptions on 12 pairs",
+    "thorough": "all histories of length <= 3 over 25 calls; the all-pairs chain; fingerprint BFS depth 5 from each first call (at most 4000 transitions / 600 s per root: roots that hit the cap are reported); all <=1-preemption schedules for all ordered pairs; 2 preemptions on 12 pairs",
 }
 ASSUMPTIONS = [
     "threads are explored at 'call' granularity under the GIL; compiled (mypyc/Cython) builds and state inside the standard "
@@ -312,9 +313,14 @@ def bfs(depth: int, acc: Any, case: dict) -> None:
     seen = {start}
     frontier: list[list[int]] = []
     transitions = 0
+    capped = False
+    t0 = time.time()
     for d in range(depth):
         nxt: list[list[int]] = []
         for h in ([[root]] if d == 0 else [hist + [i] for hist in frontier for i in range(len(POOL))]):
+            if transitions >= BFS_CAP or time.time() - t0 > BFS_SECONDS:
+                capped = True  # reported in the evidence: the search below this root is not complete
+                break
             # the state after `h` is reached by replaying h in a forked copy of this (start-state) process
             fp, good = _replay_in_child(h, case)
             transitions += 1
@@ -327,13 +333,16 @@ def bfs(depth: int, acc: Any, case: dict) -> None:
                 seen.add(fp)
                 nxt.append(h)
         frontier = nxt
-        if not frontier:
+        if not frontier or capped:
             break
+    acc.notes["bfs_roots_capped"] = acc.notes.get("bfs_roots_capped", 0) + (1 if capped else 0)
     acc.notes["bfs_states"] = acc.notes.get("bfs_states", 0) + len(seen) - 1
     acc.notes["bfs_transitions"] = acc.notes.get("bfs_transitions", 0) + transitions
-    acc.notes["bfs_roots_emptied"] = acc.notes.get("bfs_roots_emptied", 0) + (0 if frontier else 1)
+    acc.notes["bfs_roots_emptied"] = acc.notes.get("bfs_roots_emptied", 0) + (0 if frontier or capped else 1)
 
 
+BFS_CAP = 4000  # transitions per root
+BFS_SECONDS = 600.0  # and wall time per root (the case deadline is 900 s)
 _BFS_FAIL: list[tuple] = []
 
 
@@ -534,7 +543,8 @@ def _check_in_child(case: dict, acc: Any) -> None:
 
 def finalize(acc: Any, tier: str) -> dict:
     b = {"states": 1 + acc.notes.get("bfs_states", 0), "transitions": acc.notes.get("bfs_transitions", 0), "roots": len(POOL),
-         "roots_whose_frontier_emptied": acc.notes.get("bfs_roots_emptied", 0), "deep_inputs": DEEP_INFO}
+         "roots_whose_frontier_emptied": acc.notes.get("bfs_roots_emptied", 0), "roots_capped": acc.notes.get("bfs_roots_capped", 0),
+         "cap_per_root": {"transitions": BFS_CAP, "seconds": BFS_SECONDS}, "deep_inputs": DEEP_INFO}
     so = acc.notes.get("schedule_outcomes") or []
-    return {"bfs": b, "schedules": acc.transitions, "distinct_outcomes_per_pair_max": max(so) if so else 0,
+    return {"bfs": b, "exhaustive": b["roots_capped"] == 0, "schedules": acc.transitions, "distinct_outcomes_per_pair_max": max(so) if so else 0,
             "states": acc.cases + b["states"] + acc.states, "transitions": acc.cases + b["transitions"] + acc.transitions}
